@@ -14,8 +14,19 @@
 (*       either user has not (or no longer) registered the peer, nobody     *)
 (*       trusts on his behalf and no connection is completed; nothing is     *)
 (*       registered or open at a hub that was shut down                      *)
+(* and, over the history of EVERY ShipConnection the two hubs created        *)
+(* (recorded by observing wrappers around its info provider and data writer, *)
+(* under the real goroutine schedule), the connection-level formulas of      *)
+(* SmeProps - the very operators ShipSme is model checked with:              *)
+(*  C04  reported states follow the graph, terminal outcomes are final       *)
+(*  C01  no post-hello state / setup / payload unless the hub said paired or *)
+(*       auto accept, the connection is the client, or approve was called;   *)
+(*       the hub says paired / approves only on the user's word              *)
+(*  C06  deliveries only after completion, in arrival order, none missing    *)
+(*  C09  setup only with the stored SHIP id, one id report before setup      *)
+(*  C11  the end is reported exactly once                                    *)
 (***************************************************************************)
-EXTENDS Naturals, Sequences, FiniteSets, TLC, Json
+EXTENDS Naturals, Sequences, FiniteSets, TLC, Json, SmeProps
 CONSTANT ObsFile
 Trace == ndJsonDeserialize(ObsFile)
 VARIABLE l
@@ -25,6 +36,56 @@ IsSubseq(a, b) == IF a = <<>> THEN TRUE ELSE IF b = <<>> THEN FALSE
                   ELSE IF Head(a) = Head(b) THEN IsSubseq(Tail(a), Tail(b)) ELSE IsSubseq(a, Tail(b))
 NoDup(a) == \A i, j \in 1..Len(a) : i # j => a[i] # a[j]
 Idx(t) == 1..Len(t.events)
+
+\* ---------------------------------------------------------------- one recorded connection history
+LiveKinds == {"rep", "sent", "sentclose", "sentdata", "close", "closed", "setup", "id", "deliver"}
+LAcc0(c) == [acc |-> Acc0(c.role, FALSE), lastAcc |-> ""]
+\* the presented SHIP id is that of the latest accessMethods frame the connection received
+LAct(la) == [a |-> "Inject", m |-> "live", id |-> la.lastAcc]
+RECURSIVE LWalk(_, _, _, _)
+LWalk(c, i, la, bad) ==
+    IF i > Len(c.evs) THEN [la |-> la, bad |-> bad]
+    ELSE LET e == c.evs[i] IN
+         IF e.k \in LiveKinds
+         THEN LET r == OnEvent(c.role, c.stored, LAct(la), la.acc, [k |-> e.k, v |-> e.v], {})
+              IN  LWalk(c, i + 1, [la EXCEPT !.acc = r.acc], bad \cup {[i |-> i, key |-> k, par |-> e.par] : k \in r.bad})
+         ELSE IF e.k = "q" THEN LWalk(c, i + 1, [la EXCEPT !.acc.trust = @ \/ e.id = "T"], bad)
+         ELSE IF e.k = "enter" /\ e.v = "approve" THEN LWalk(c, i + 1, [la EXCEPT !.acc.trust = TRUE], bad)
+         ELSE IF e.k = "in" /\ e.v = "data" THEN LWalk(c, i + 1, [la EXCEPT !.acc.inj = Append(@, e.id)], bad)
+         ELSE IF e.k = "in" /\ e.v = "acc" THEN LWalk(c, i + 1, [la EXCEPT !.lastAcc = e.id], bad)
+         ELSE LWalk(c, i + 1, la, bad)
+\* at rest: the state of the connection as JudgeStep sees it after real time has passed ("Sleep")
+JudgeConn(t, c) ==
+    LET w == LWalk(c, 1, LAcc0(c), {})
+        lastPar == IF Len(c.evs) = 0 THEN FALSE ELSE c.evs[Len(c.evs)].par
+        fin == IF t.settled /\ c.ran
+               THEN JudgeStep(c.role, c.stored, [a |-> "Sleep", m |-> "", id |-> ""], w.la.acc,
+                              [st |-> c.st, tRun |-> c.tRun, wsOpen |-> c.wsOpen, buf |-> c.buf, ev |-> <<>>, panicked |-> FALSE, hung |-> FALSE]).bad
+               ELSE {}
+    IN  w.bad \cup {[i |-> Len(c.evs), key |-> k, par |-> lastPar] : k \in fin}
+
+\* ---------------------------------------------------------------- the hub's answers and the user's word (C01, hub level)
+Ev(t, i, name, h) == t.events[i].ev = name /\ t.events[i].h = h
+\* the user's word for the peer was 'register' at some moment before event j: a Register started before j that no completed
+\* Unregister / Cancel / restart of the hub followed (interval semantics: a call in progress counts for both answers)
+RegisteredBefore(t, h, j) ==
+    \E i \in Idx(t) : i < j /\ Ev(t, i, "OpRegister", h)
+                       /\ ~\E k \in Idx(t) : i < k /\ k < j /\ (Ev(t, k, "OpUnregisterEnd", h) \/ Ev(t, k, "OpCancelEnd", h) \/ Ev(t, k, "OpRestart", h))
+AutoBefore(t, h, j) ==
+    \E i \in Idx(t) : i < j /\ Ev(t, i, "OpAutoOn", h) /\ ~\E k \in Idx(t) : i < k /\ k < j /\ Ev(t, k, "OpRestart", h)
+AutoOnAt(t, h, j) ==
+    \E i \in Idx(t) : i < j /\ Ev(t, i, "OpAutoOn", h)
+                       /\ ~\E k \in Idx(t) : i < k /\ k < j /\ (Ev(t, k, "OpAutoOffEnd", h) \/ Ev(t, k, "OpRestart", h))
+HubTrust(t) ==
+    {<<"C01", "hub-says-paired-without-the-users-word", t.events[j].h>> :
+        j \in {j \in Idx(t) : t.events[j].ev = "c.q" /\ t.events[j].v = "paired" /\ t.events[j].id = "T"
+                              /\ ~RegisteredBefore(t, t.events[j].h, j) /\ ~AutoBefore(t, t.events[j].h, j)}}
+    \cup {<<"C01", "hub-says-auto-accept-although-off", t.events[j].h>> :
+        j \in {j \in Idx(t) : t.events[j].ev = "c.q" /\ t.events[j].v = "auto" /\ t.events[j].id = "T" /\ ~AutoOnAt(t, t.events[j].h, j)}}
+    \cup {<<"C01", "pending-request-approved-without-the-users-word", t.events[j].h>> :
+        j \in {j \in Idx(t) : t.events[j].ev = "c.enter" /\ t.events[j].v = "approve" /\ ~RegisteredBefore(t, t.events[j].h, j)}}
+    \cup {<<"C01", "device-set-up-at-a-hub-that-never-trusted", t.events[j].h>> :
+        j \in {j \in Idx(t) : t.events[j].ev = "Setup" /\ ~(\E i \in Idx(t) : i < j /\ (Ev(t, i, "OpRegister", t.events[j].h) \/ Ev(t, i, "OpAutoOn", t.events[j].h)))}}
 Judge(t) ==
     LET A == t.hubs["A"]
         B == t.hubs["B"]
@@ -47,18 +108,25 @@ Judge(t) ==
                  h \in {h \in {"A", "B"} : \E i, j \in Idx(t) : i < j /\ t.events[i].ev = "OpShutdownEnd" /\ t.events[i].h = h
                                                               /\ t.events[j].ev = "StreamOpen" /\ t.events[j].h = Other(h)
                                                               /\ t.events[j].t > t.events[i].t + 400}}
-        b9 == {<<"C10", "trusted-although-unregistered", h>> : h \in {h \in {"A", "B"} : ~t.userReg[h] /\ ~t.shutDown[h] /\ t.hubs[h].trusted}}
-        b10 == IF (~t.userReg["A"] \/ ~t.userReg["B"]) /\ (good(A) \/ good(B))
+        \* (trust a hub gained by accepting a connection while auto accept was on is the user's word as well)
+        word(h) == t.userReg[h] \/ AutoBefore(t, h, Len(t.events) + 1)
+        b9 == {<<"C10", "trusted-although-unregistered", h>> : h \in {h \in {"A", "B"} : ~word(h) /\ ~t.shutDown[h] /\ t.hubs[h].trusted}}
+        b10 == IF (~word("A") \/ ~word("B")) /\ (good(A) \/ good(B))
                THEN {<<"C10", "completed-although-not-registered-by-both-users">>} ELSE {}
         b11 == {<<"C10", "connection-registered-at-a-hub-that-was-shut-down", h>> : h \in {h \in {"A", "B"} : t.shutDown[h] /\ t.hubs[h].registered}}
         b12 == IF (t.shutDown["A"] \/ t.shutDown["B"]) /\ t.openStreams > 0 THEN {<<"C10", "stream-open-although-a-hub-was-shut-down", t.openStreams>>} ELSE {}
         \* b6 and b8 hold at any time; everything else is a statement about a state at rest
-    IN  b6 \cup b8 \cup (IF t.settled THEN b1 \cup b2 \cup b3 \cup b4 \cup b5 \cup b7 \cup b9 \cup b10 \cup b11 \cup b12 ELSE {})
+        \* C09 on two hubs: no device is ever set up at a hub whose application stored another SHIP id for the peer
+        b13 == {<<"C09", "device-set-up-although-the-stored-ship-id-differs", h>> :
+                  h \in {h \in {"A", "B"} : t.script.ids[h] = "wrong" /\ t.hubs[h].setups > 0}}
+    IN  b6 \cup b8 \cup b13 \cup HubTrust(t) \cup (IF t.settled THEN b1 \cup b2 \cup b3 \cup b4 \cup b5 \cup b7 \cup b9 \cup b10 \cup b11 \cup b12 ELSE {})
 Init == l = 0
 Next == /\ l < Len(Trace)
         /\ l' = l + 1
         /\ LET t == Trace[l + 1]
-           IN  \A k \in Judge(t) : PrintT(<<"MON", ToJson([id |-> t.id, i |-> 0, key |-> k, kf |-> {}])>>)
+           IN  /\ \A k \in Judge(t) : PrintT(<<"MON", ToJson([id |-> t.id, i |-> 0, key |-> k, kf |-> {}])>>)
+               /\ \A n \in 1..Len(t.conns) : \A b \in JudgeConn(t, t.conns[n]) :
+                      PrintT(<<"MON", ToJson([id |-> t.id, i |-> b.i, conn |-> t.conns[n].c, key |-> b.key, kf |-> IF b.par THEN {"par"} ELSE {}])>>)
 Spec == Init /\ [][Next]_l
 Done == TLCGet("stats").diameter = Len(Trace) + 1
 ====
